@@ -6,6 +6,7 @@ import (
 	"context"
 	"encoding/json"
 	"fmt"
+	"strings"
 	"sync"
 	"time"
 
@@ -87,8 +88,17 @@ func (c *subConn) len() int { c.mu.Lock(); defer c.mu.Unlock(); return len(c.msg
 
 type subSync struct {
 	junosync.NoopSynchronizer
-	heads *feed.Feed[*core.Block]
-	pre   *feed.Feed[*pending.PreConfirmed]
+	heads  *feed.Feed[*core.Block]
+	pre    *feed.Feed[*pending.PreConfirmed]
+	reorgs *feed.Feed[*junosync.ReorgBlockRange]
+}
+
+func newSubSync() *subSync {
+	return &subSync{heads: feed.New[*core.Block](), pre: feed.New[*pending.PreConfirmed](), reorgs: feed.New[*junosync.ReorgBlockRange]()}
+}
+
+func (s *subSync) SubscribeReorg() junosync.ReorgSubscription {
+	return junosync.ReorgSubscription{Subscription: s.reorgs.Subscribe()}
 }
 
 func (s *subSync) SubscribeNewHeads() junosync.NewHeadSubscription {
@@ -141,9 +151,40 @@ func expectedOf(f Filt, plan Plan, blk *core.Block) []string {
 }
 
 type subAPI struct {
-	name      string
-	subscribe func(ctx context.Context, f Filt, from uint64, preConfirmed bool) error
+	name string
+	// id: the subscription's block id in the driver's syntax: "-" (none) | latest | n<hex> | h<hex> (hash of that
+	// block) | hx (a hash no block has)
+	subscribe func(ctx context.Context, f Filt, id string, preConfirmed bool) error
 	run       func(ctx context.Context)
+}
+
+// subIDJSON renders a subscription block id as the JSON the decoder of every version reads.
+func (w *World) subIDJSON(id string) []byte {
+	switch {
+	case id == "-":
+		return nil
+	case id == "latest":
+		return []byte(`"latest"`)
+	case id == "hx":
+		return []byte(`{"block_hash":"0xdead"}`)
+	case strings.HasPrefix(id, "n"):
+		var n uint64
+		fmt.Sscanf(id[1:], "%x", &n)
+		return []byte(fmt.Sprintf(`{"block_number":%d}`, n))
+	case strings.HasPrefix(id, "h"):
+		var n int
+		fmt.Sscanf(id[1:], "%x", &n)
+		if n >= len(w.Bundles) {
+			return []byte(`{"block_hash":"0xdead"}`)
+		}
+		return []byte(fmt.Sprintf(`{"block_hash":"%s"}`, w.Bundles[n].Block.Hash.String()))
+	}
+	w.Res.Fatalf("harness: subscription id %q", id)
+	return nil
+}
+
+func rpcErrString(rerr *jsonrpc.Error) error {
+	return fmt.Errorf("rpc error %d %s %v", rerr.Code, rerr.Message, rerr.Data)
 }
 
 func (w *World) subAPIs(ss *subSync) []subAPI {
@@ -151,36 +192,46 @@ func (w *World) subAPIs(ss *subSync) []subAPI {
 	h9 := rpcv9.New(w.Node.BC, ss, nil, log.NewNopZapLogger())
 	return []subAPI{
 		{name: "v10", run: func(ctx context.Context) { _ = h10.Run(ctx) },
-			subscribe: func(ctx context.Context, f Filt, from uint64, pre bool) error {
+			subscribe: func(ctx context.Context, f Filt, id string, pre bool) error {
 				addrs, keys := f.real()
-				id := rpcv10.SubscriptionBlockID(rpcv10.BlockIDFromNumber(from))
+				var bid *rpcv10.SubscriptionBlockID
+				if raw := w.subIDJSON(id); raw != nil {
+					bid = new(rpcv10.SubscriptionBlockID)
+					if err := json.Unmarshal(raw, bid); err != nil {
+						return fmt.Errorf("harness: block id %s: %w", raw, err)
+					}
+				}
 				var fin *rpcv10.TxnFinalityStatusWithoutL1
 				if pre {
 					v := rpcv10.TxnFinalityStatusWithoutL1(rpcv10.TxnPreConfirmed)
 					fin = &v
 				}
-				_, rerr := h10.SubscribeEvents(ctx, rpcv10.AddressList(addrs), keys, &id, fin)
-				if rerr != nil {
-					return fmt.Errorf("rpc error %d %s %v", rerr.Code, rerr.Message, rerr.Data)
+				if _, rerr := h10.SubscribeEvents(ctx, rpcv10.AddressList(addrs), keys, bid, fin); rerr != nil {
+					return rpcErrString(rerr)
 				}
 				return nil
 			}},
 		{name: "v9", run: func(ctx context.Context) { _ = h9.Run(ctx) },
-			subscribe: func(ctx context.Context, f Filt, from uint64, pre bool) error {
+			subscribe: func(ctx context.Context, f Filt, id string, pre bool) error {
 				addrs, keys := f.real()
 				var addr *felt.Address
 				if len(addrs) > 0 {
 					addr = &addrs[0]
 				}
-				id := rpcv9.SubscriptionBlockID(rpcv9.BlockIDFromNumber(from))
+				var bid *rpcv9.SubscriptionBlockID
+				if raw := w.subIDJSON(id); raw != nil {
+					bid = new(rpcv9.SubscriptionBlockID)
+					if err := json.Unmarshal(raw, bid); err != nil {
+						return fmt.Errorf("harness: block id %s: %w", raw, err)
+					}
+				}
 				var fin *rpcv9.TxnFinalityStatusWithoutL1
 				if pre {
 					v := rpcv9.TxnFinalityStatusWithoutL1(rpcv9.TxnPreConfirmed)
 					fin = &v
 				}
-				_, rerr := h9.SubscribeEvents(ctx, addr, keys, &id, fin)
-				if rerr != nil {
-					return fmt.Errorf("rpc error %d %s %v", rerr.Code, rerr.Message, rerr.Data)
+				if _, rerr := h9.SubscribeEvents(ctx, addr, keys, bid, fin); rerr != nil {
+					return rpcErrString(rerr)
 				}
 				return nil
 			}},
@@ -194,9 +245,9 @@ func (w *World) runSubscriptions(filters []Filt) {
 	}
 	head := len(w.Chain) - 1
 	l1 := uint64(2)
-	_ = w.Node.BC.SetL1Head(&core.L1Head{BlockNumber: l1, BlockHash: lib.F(1), StateRoot: lib.F(2)})
+	w.do(Op{Kind: "l1", N: int(l1)})
 	for _, pre := range []bool{false, true} {
-		ss := &subSync{heads: feed.New[*core.Block](), pre: feed.New[*pending.PreConfirmed]()}
+		ss := newSubSync()
 		for _, api := range w.subAPIs(ss) {
 			ctx, cancel := context.WithCancel(context.Background())
 			go api.run(ctx)
@@ -218,11 +269,13 @@ func (w *World) oneSubscription(parent context.Context, ss *subSync, api subAPI,
 	rep := func(extra any) any {
 		return map[string]any{"history": w.replay(), "filter": f, "api": api.name, "pre_confirmed": pre, "from": from, "detail": extra}
 	}
-	if err := api.subscribe(context.WithValue(ctx, jsonrpc.ConnKey{}, conn), f, from, pre); err != nil {
+	if err := api.subscribe(context.WithValue(ctx, jsonrpc.ConnKey{}, conn), f, fmt.Sprintf("n%x", from), pre); err != nil {
 		w.Res.Violate(lib.Violation{Sig: "event-subscription-refused", What: fmt.Sprintf("%s: subscribeEvents(%v, from %d): %v", api.name, f, from, err), Replay: rep(nil)})
 		return
 	}
 	w.Res.Hit("subscription:" + api.name)
+	w.compare("subscription-created", fmt.Sprintf("ok %d %d %d", from, len(w.Chain)-1, l1),
+		w.ask(fmt.Sprintf("subscribe %s n%x %s %s 0", api.name, from, f.arg(), w.l1Arg())))
 	seq := uint64(0)
 	// send delivers blk and then markers until a marker notification arrives; it returns the
 	// notifications for blk's number received in between.
@@ -269,7 +322,7 @@ func (w *World) oneSubscription(parent context.Context, ss *subSync, api subAPI,
 		w.Res.Violate(lib.Violation{Sig: "event-subscription-delivers-nothing", What: fmt.Sprintf("%s: no notification for a matching new head in time (filter %v)", api.name, f), Replay: rep(nil)})
 		return
 	}
-	var got []string
+	var got, gotFin []string
 	for _, m := range hist {
 		b := int(m.Block)
 		want := "ACCEPTED_ON_L2"
@@ -288,7 +341,13 @@ func (w *World) oneSubscription(parent context.Context, ss *subSync, api subAPI,
 			}
 		}
 		got = append(got, Em{b, t, m.EvIdx}.String())
+		gotFin = append(gotFin, Em{b, t, m.EvIdx}.String()+"/"+map[string]string{"ACCEPTED_ON_L1": "L1", "ACCEPTED_ON_L2": "L2"}[m.Finality])
 	}
+	if len(gotFin) == 0 {
+		gotFin = []string{"-"}
+	}
+	w.compare("subscription-historical-replay", strings.Join(gotFin, ","),
+		w.ask(fmt.Sprintf("subreplay %s %x %x %s", f.arg(), from, len(w.Chain)-1, w.l1Arg())))
 	wantH := emsString(naive(w.Chain, f, int(from), len(w.Chain)-1))
 	gotH := "-"
 	if len(got) > 0 {
@@ -350,6 +409,11 @@ func (w *World) oneSubscription(parent context.Context, ss *subSync, api subAPI,
 			}
 			w.Res.Hit("subscription:block-resent")
 		}
+		if okBlock {
+			// what the real handler notified is what the model's matchingEvents yields
+			w.compare("subscription-live-block", emsString(naive([]Plan{plan}, f, 0, 0)),
+				w.ask(fmt.Sprintf("live %s 0 %s %s", f.arg(), itemsLine(bloomItems(blk.EventsBloom)), planLine(plan))))
+		}
 		w.Res.Hit("subscription:live-block-checked")
 		if len(want) > 0 {
 			w.Res.Hit("subscription:live-block-with-matching-events")
@@ -368,7 +432,7 @@ func (w *World) runSubscriptionsV8(filters []Filt) {
 	if len(w.Chain) == 0 {
 		return
 	}
-	ss := &subSync{heads: feed.New[*core.Block](), pre: feed.New[*pending.PreConfirmed]()}
+	ss := newSubSync()
 	h := rpcv8.New(w.Node.BC, ss, nil, log.NewNopZapLogger())
 	ctx, cancel := context.WithCancel(context.Background())
 	defer cancel()
